@@ -7,7 +7,7 @@ from rules import common, rolling
 
 CLAIMED = True
 TECHNIQUE = "static analysis over type-checked MIR: provenance of every opened/stored/archived path from expand_env_vars (call-site floor), constant agreement (prefix/suffix literals vs. offsets used), control dependence of the single replace site on the terminated-name flag and env::var == Ok, decision tables of the two character predicates, panic-site inventory of the scanner"
-LEVEL_TEXT = """Static decision of the call-site and guard clauses (the scanner's byte-for-byte string algorithm is NOT claimed): (N1) the path opened by FileAppenderBuilder::build, the path stored by RollingFileAppenderBuilder::build and every pattern-derived path in the fixed-window roller derive from an expand_env_vars result (floor: 6 call sites); (N2) the literal searched for is "$ENV{", the offset added to a match equals its length, the terminator compared is '}' and the amount added for it equals its UTF-8 length; (N3) the only rewrite of the output path is one str::replace call that is control-dependent on the name having been terminated by the suffix and on env::var(name) being Ok, and replaces exactly the matched slice with the variable's value; (N4) first-character predicate = is_alphanumeric OR '_', inner predicate = is_alphanumeric OR '_' OR '.'; (N6) no definite character count is used as a byte offset (and no byte count steps a character iterator) in the scanner; (N5) no un-discharged panic site in the scanner (slices/split_at offsets come from match_indices/len of the same string). (N1, cont.) expand_env_vars is called only where configured text is taken in and never on an expansion's result; every pattern.replace(..) in the roller module that reaches the file system has passed it."""
+LEVEL_TEXT = """Static decision of the call-site and guard clauses (the scanner's byte-for-byte string algorithm is NOT claimed): (N1) the path opened by FileAppenderBuilder::build, the path stored by RollingFileAppenderBuilder::build and every pattern-derived path in the fixed-window roller derive from an expand_env_vars result (floor: 6 call sites); (N2) the literal searched for is "$ENV{", the offset added to a match equals its length, the terminator compared is '}' and the amount added for it equals its UTF-8 length; (N3) the only rewrite of the output path is one str::replace call that is control-dependent on the name having been terminated by the suffix and on env::var(name) being Ok, and replaces exactly the matched slice with the variable's value; (N4) first-character predicate = is_alphanumeric OR '_', inner predicate = is_alphanumeric OR '_' OR '.'; (N6) no definite character count is used as a byte offset (and no byte count steps a character iterator) in the scanner; (N5) no un-discharged panic site in the scanner (slices/split_at offsets come from match_indices/len of the same string). (N1, cont.) expand_env_vars is called only where configured text is taken in and never on an expansion's result; every pattern.replace(..) in the roller module that reaches the file system has passed it. (N8) the directory of the expanded archive name is made on every roll (C07.R10 re-evaluated)."""
 LEVEL_NOTE = "Trusted: rustc MIR/callee resolution; str::match_indices/replace/split_at, char::is_alphanumeric, std::env::var. Output for every path string (adjacent/repeated references, values combining with neighbours) is not decided."
 EXPLANATION = """Decided: N1 all six locations expanded, N2 constants agree, N3 replacement guard, N4 predicates, N5 no panic, N6 byte/char unit discipline. Undecided: byte-for-byte output of the scanner for every path string."""
 DECIDED = ["N1", "N2", "N3", "N4", "N5", "N6", "N7 a terminated reference is always looked up, a set variable always replaced"]
@@ -76,6 +76,9 @@ def flag_terminator_edges(f):
 
 def run_cfg(ctx, p, cfg):
     feats = set(p.meta.get("features", []))
+    if "fixed_window_roller" in feats:
+        from rules import c07 as c07_
+        c07_.rule_directories(ctx, p, cfg, "N8")   # "creates its files at the expanded location": the directory of the expanded name is made on every roll (C07.R10 re-evaluated)
     with ctx.rule("N1", "every location is expanded", cfg) as r:
         sites = p.all_calls(EXPAND)
         want = 0
